@@ -863,7 +863,17 @@ impl<'source> Parser<'source> {
             return self.error(InternalError::MissingAssignmentTarget);
         }
 
-        self.frame_mut()?.clear_error_if_not_lhs();
+        // An error that's pending for an expression that isn't part of this assignment's targets
+        // stays pending: e.g. in `{a as b}, (x = 1)` the rebind isn't on the LHS of `x = 1`.
+        let target_spans: Vec<Span> = targets.iter().map(|target| self.node_span(*target)).collect();
+        let frame = self.frame_mut()?;
+        if let Some((_, error_span)) = &frame.error_if_not_lhs
+            && target_spans
+                .iter()
+                .any(|span| span.start <= error_span.start && error_span.end <= span.end)
+        {
+            frame.clear_error_if_not_lhs();
+        }
 
         // Consume the `=` token
         self.consume_token_with_context(context);
